@@ -9,6 +9,7 @@ from .isomsg import *
 from .decode import *
 
 PROPERTY = 'C07'
+DEBUG_LOG = ['file/ipm/blocked', 'msg/single/latin_1/bin', 'file/vbs/blocked']      # obligations that are also explored with debug logging switched on
 PYTHON_O = ['msg/single/latin_1/bin', 'msg/pds-carrier/DE48', 'msg/icc/DE55', 'file/ipm/blocked']      # obligations that are also explored with the modules compiled as under python -O
 ASSUMPTIONS = [
     'message = (concrete or opaque) MTI + bitmap from a family (configured singles/pairs, unconfigured bits; hex bitmap either valid or 32 opaque '
